@@ -72,7 +72,7 @@ def gen(tier, rng, harness=None, driver=None):
         lines.append("!mod.closure - %s" % hx(t))
     # one-construct catalogue: every keyword of the regenerated enum table in a minimal module, structured attributes, every instruction
     # and terminator kind, constants and constant expressions, the specialised debug-info nodes with their fields
-    for name, text, frags in catalog.all_entries(regen.enum_table(harness)):
+    for name, text, frags in catalog.all_entries(regen.enum_table(harness)) + catalog.FINDING_ENTRIES:
         lines.append("!mod.keeps %s %s" % (hx("\x1f".join(frags or [])), hx(text)))
     # string-valued fields at every site that prints one (~65 sites: section, gc, comdat, syncscope of each of the five atomic kinds, asm strings, attribute
     # strings, metadata strings ...): a string with a quote, a backslash, control and non-UTF-8 bytes is printed, parsed, and must come back unchanged
@@ -100,8 +100,12 @@ def di_stream(rng, harness, driver, n):
 def core3_parse_stream(rng, driver, n):
     from . import core3gen
     fs = [core3gen.gen_func(rng) for _ in range(n)]
+    # some with metadata attachments: a function on its own defines no metadata, so its text is rejected by both sides (asm/metadata.go irMetadataAttachment;
+    # Core3.translate) — after both have READ the attachments; the printed bytes are compared as well
+    att = [core3gen.attach(rng, core3gen.gen_func(rng), [0, 7, 4294967296], 0.4) for _ in range(max(4, n // 6))]
+    fs = fs + att
     outs = C.run_lines([driver], ["core3.print " + " ".join(f) for f in fs], shards=8)
-    lines = []
+    lines = ["core3.print " + " ".join(f) for f in att]
     for o in outs:
         if not o or o in ("-", "unknown-op"):
             continue
